@@ -27,3 +27,19 @@ reg('C05', 'fault_enumeration',
     'long sequences; unblock_1014 is fed every truncation length of 1..4-block files and every wrong value of every trailer '
     'byte. Each returned slice is compared with the reference payload stream. Held on the executions produced.',
     'Trusts vmon/ref/blocking.py and io.BytesIO. Read sizes 0/negative are outside the statement; read(None) judged only if it returns.')
+
+reg('C03', 'exploration',
+    'runtime monitor: real VbsWriter/VbsReader and convenience functions driven over enumerated record lengths and boundary-aimed lists, file bytes compared with a reference framing',
+    'Every record length 1..6000 (single-record files, blocked and unblocked, class and convenience APIs) is enumerated in '
+    'both tiers; multi-record lists put a length prefix or record end on every offset within +-4 of a 1012-byte payload '
+    'boundary; content classes include 0x00/0x40 runs. File bytes are compared with ref.vbs / the blocked payload model and the '
+    'records read back (from the real and from the reference file) with the input. Held on the executions produced.',
+    'Trusts vmon/ref/blocking.py, io.BytesIO. Records are non-empty and at most 6000 bytes.')
+
+reg('C09', 'fault_enumeration',
+    'runtime monitor: real VbsReader/IpmReader run on every truncation prefix of generated files, yield compared with a reference reader over the surviving payload',
+    'For each generated VBS, blocked, IPM-VBS and IPM-blocked file every truncation offset 0..len(file) is executed '
+    '(exhaustive per file): the records yielded must be exactly those wholly inside the surviving payload stream and the '
+    'terminating event must be end-of-iteration or MciIpmDataError. Files are sized so that prefixes and record ends fall on '
+    'and around block boundaries. Held on the executions produced.',
+    'Trusts vmon/ref/blocking.py; for IPM files the expected dicts are the real decoder output on the complete records.')
